@@ -167,7 +167,7 @@ theorem nsb_captureScope {env : List Frame} (he : nsbEnv env = true) (vars : Lis
   suffices h : ∀ (acc : Frame), Value.nsbRec acc = true →
       Value.nsbRec (vars.foldl (fun sc x =>
         match envGet env x with
-        | some v => if isBuiltinIdent x then sc else insertAL x v sc
+        | some v => insertAL x v sc
         | none => sc) acc) = true from h [] rfl
   induction vars with
   | nil => intro acc h; exact h
@@ -177,9 +177,7 @@ theorem nsb_captureScope {env : List Frame} (he : nsbEnv env = true) (vars : Lis
     apply ih
     split
     · rename_i v hv
-      split
-      · exact h
-      · exact nsb_insertAL (nsb_envGet he hv) h
+      exact nsb_insertAL (nsb_envGet he hv) h
     · exact h
 
 theorem nsb_spreadValues {v : Value} (hv : v.nsb = true) : Value.nsbList (spreadValues v) = true := by
